@@ -25,7 +25,11 @@ import (
 	"time"
 )
 
-const repo = "/repo"
+// repo is the tree under test: /repo, or $VERIF_REPO for scratch worktrees (mutation testing only;
+// evidence and replays are then written under $VERIF_REPO/.verif-out instead of /verif).
+var repo = "/repo"
+
+var altRepo bool
 
 type tierInt struct {
 	Quick    int `json:"quick"`
@@ -102,6 +106,10 @@ func main() {
 	verifDir = filepath.Dir(filepath.Dir(exe))
 	if v := os.Getenv("VERIF_DIR"); v != "" {
 		verifDir = v
+	}
+	if v := os.Getenv("VERIF_REPO"); v != "" && v != "/repo" {
+		repo = v
+		altRepo = true
 	}
 	id := os.Args[1]
 	tier := os.Args[2]
@@ -422,6 +430,15 @@ func run(id, tier, replay string) int {
 	if kb, err := os.ReadFile(filepath.Join(verifDir, "known_findings.json")); err == nil {
 		json.Unmarshal(kb, &known)
 	}
+	// provisional per-property files written while a check is being built
+	if extra, _ := filepath.Glob(filepath.Join(verifDir, "known_findings.d", "*.json")); len(extra) > 0 {
+		for _, f := range extra {
+			var more []finding
+			if kb, err := os.ReadFile(f); err == nil && json.Unmarshal(kb, &more) == nil {
+				known = append(known, more...)
+			}
+		}
+	}
 	isKnown := func(key string) *finding {
 		for i := range known {
 			if known[i].Property == id && known[i].Status == "known" && known[i].Key == key {
@@ -437,7 +454,11 @@ func run(id, tier, replay string) int {
 	sort.Strings(keys)
 	var knownSeen []string
 	nViol := 0
-	os.MkdirAll(filepath.Join(verifDir, "replays"), 0o755)
+	outDir := verifDir
+	if altRepo {
+		outDir = filepath.Join(repo, ".verif-out")
+	}
+	os.MkdirAll(filepath.Join(outDir, "replays"), 0o755)
 	for _, k := range keys {
 		v := viols[k]
 		if f := isKnown(k); f != nil {
@@ -446,7 +467,7 @@ func run(id, tier, replay string) int {
 			continue
 		}
 		nViol++
-		rp := filepath.Join(verifDir, "replays", fmt.Sprintf("%s-%d-%s.json", id, seed, sanitize(k)))
+		rp := filepath.Join(outDir, "replays", fmt.Sprintf("%s-%d-%s.json", id, seed, sanitize(k)))
 		rb, _ := json.MarshalIndent(map[string]any{
 			"property": id, "key": k, "what": v.What, "case": v.ID, "target": v.Target, "family": v.Family, "index": v.Index,
 			"case_seed": v.Seed, "run_seed": seed, "tier": tier, "occurrences": v.count, "witness": v.Witness,
@@ -512,8 +533,8 @@ func run(id, tier, replay string) int {
 		"violations":  nViol,
 	}
 	eb, _ := json.MarshalIndent(ev, "", " ")
-	os.MkdirAll(filepath.Join(verifDir, "evidence"), 0o755)
-	if err := os.WriteFile(filepath.Join(verifDir, "evidence", id+".json"), eb, 0o644); err != nil {
+	os.MkdirAll(filepath.Join(outDir, "evidence"), 0o755)
+	if err := os.WriteFile(filepath.Join(outDir, "evidence", id+".json"), eb, 0o644); err != nil {
 		return broken("cannot write evidence: %v", err)
 	}
 	fmt.Printf("%s %s seed=%d: evaluations=%d distinct_nontrivial=%d signatures=%d violations=%d known=%d races=%d inconclusive=%d wall=%.1fs\n",
@@ -561,6 +582,13 @@ func build(t target, bin, scratch string, idx int) (string, error) {
 		} else if err := prepSum(dir); err != nil {
 			return err.Error(), err
 		}
+		if altRepo {
+			mf, err := altModfile(dir, scratch, t.Kind)
+			if err != nil {
+				return err.Error(), err
+			}
+			args = append(args, "-modfile="+mf)
+		}
 		args = append(args, t.Pkg)
 		cmd = exec.Command("go", args...)
 		cmd.Dir = dir
@@ -597,6 +625,22 @@ func build(t target, bin, scratch string, idx int) (string, error) {
 }
 
 var sumMu sync.Mutex
+
+// altModfile writes a copy of the harness go.mod (and go.sum) whose replace
+// directives point at $VERIF_REPO instead of /repo.
+func altModfile(dir, scratch, kind string) (string, error) {
+	b, err := os.ReadFile(filepath.Join(dir, "go.mod"))
+	if err != nil {
+		return "", err
+	}
+	s := strings.ReplaceAll(string(b), "=> /repo", "=> "+repo)
+	mf := filepath.Join(scratch, kind+"-alt.mod")
+	if err := os.WriteFile(mf, []byte(s), 0o644); err != nil {
+		return "", err
+	}
+	sum, _ := os.ReadFile(filepath.Join(dir, "go.sum"))
+	return mf, os.WriteFile(filepath.Join(scratch, kind+"-alt.sum"), sum, 0o644)
+}
 
 // prepSum regenerates harness/go.sum = /repo/go.sum + go.sum.extra
 func prepSum(dir string) error {
